@@ -366,7 +366,29 @@ def r_lazy_loop(c, a, b, n, other):
 
 import operator as _op
 
+def r_assert_ge_k(a):
+    a = _num(a)
+    if isinstance(a, RB):
+        raise RefAny
+    if not a >= 1:
+        raise RefRaise
+    return None
+
+
+def _lazy0(f):
+    def g(c, a, b):
+        if not isinstance(c, RB):
+            raise RefAny
+        if not int(c):
+            return 0
+        return f(a, b)
+    return g
+
+
 REF = {
+    "lazy_lt0": _lazy0(lambda a, b: _cmp(_op.lt)(a, b)), "lazy_eq0": _lazy0(lambda a, b: _cmp(_op.eq)(a, b)),
+    "lt_k": lambda a: _cmp(_op.lt)(a, 2) if not isinstance(_num(a), RB) else (_ for _ in ()).throw(RefAny()),
+    "add_k": lambda a: r_add(a, 3), "assert_ge_k": r_assert_ge_k,
     "lshift_s": r_lshift_s, "rshift_s": r_rshift_s, "lazy_loop": r_lazy_loop,
     "mixbits": lambda c: [1, c, 0, 1] if isinstance(c, RB) else (_ for _ in ()).throw(RefAny()),
     "ign_on": lambda a: _num(a), "repack": lambda l: r_unpack_bi(l),
@@ -492,6 +514,11 @@ def _i_ign_on(a):
 
 
 IMPL = {
+    # lazily evaluated arm against a plain literal as the other arm
+    "lazy_lt0": lambda c, a, b: H.branching.if_then_else(_scalar(c), lambda: _scalar(a) < _scalar(b), 0),
+    "lazy_eq0": lambda c, a, b: H.branching.if_then_else(_scalar(c), lambda: _scalar(a) == _scalar(b), 0),
+    # plain Python integers as operands / bounds (constants lifted by the library, possibly under a guard)
+    "lt_k": lambda a: _scalar(a) < 2, "add_k": lambda a: _scalar(a) + 3, "assert_ge_k": lambda a: _scalar(a).assert_ge(1),
     "lshift_s": lambda a, k: _scalar(a) << _scalar(k), "rshift_s": lambda a, k: _scalar(a) >> _scalar(k),
     "lazy_loop": _i_lazy_loop, "mixbits": lambda c: [1, _scalar(c), 0, 1], "ign_on": _i_ign_on,
     "repack": lambda l: _shared_packer().unpack(_list_of(l), 0),
@@ -530,7 +557,7 @@ IMPL = {
     "bitlen_up": _i_bitlen_up,
 }
 
-ARITY = {"lshift_s": 2, "rshift_s": 2, "lazy_loop": 5, "mixbits": 1, "ign_on": 1, "repack": 1, "add": 2, "sub": 2, "mul": 2, "neg": 1, "abs": 1, "lt": 2, "le": 2, "eq": 2, "ne": 2, "and": 2, "or": 2, "xor": 2, "not": 1,
+ARITY = {"lazy_lt0": 3, "lazy_eq0": 3, "lt_k": 1, "add_k": 1, "assert_ge_k": 1, "lshift_s": 2, "rshift_s": 2, "lazy_loop": 5, "mixbits": 1, "ign_on": 1, "repack": 1, "add": 2, "sub": 2, "mul": 2, "neg": 1, "abs": 1, "lt": 2, "le": 2, "eq": 2, "ne": 2, "and": 2, "or": 2, "xor": 2, "not": 1,
          "ite": 3, "floordiv": 2, "mod": 2, "mkarr": 3, "mkarr_k": 2, "get": 2, "set": 3, "arr_add": 2, "arr_sub": 2, "arr_scale": 2,
          "arr_adds": 2, "arr_ite": 3, "arr_assert_eq": 2, "lincomb": 4, "scalar_mul": 2, "vector_sub": 2, "tobits3": 1, "frombits": 1,
          "bit0": 1, "bit2": 1, "pack_bi": 2, "unpack_bi": 1, "packbool": 1, "assert_lt": 2, "assert_eq": 2, "assert_ne": 2,
@@ -548,6 +575,11 @@ for _f, _names in {
     for _n in _names:
         FEATURE[_n] = _f
 FEATURE["repack"] = "pack"
+FEATURE["lazy_lt0"] = "lazy"
+FEATURE["lazy_eq0"] = "lazy"
+FEATURE["lt_k"] = "const"
+FEATURE["add_k"] = "const"
+FEATURE["assert_ge_k"] = "const"
 
 # ops the soundness pass leaves out (results covered by known findings of C02: unconstrained quotient)
 UNSOUND_KNOWN = {"floordiv", "mod", "lazy_floordiv", "lshift_s", "rshift_s", "lazy_loop"}
@@ -795,12 +827,16 @@ def arg_ok(op, pos, t):
         return t == "B"
     if op in ("lshift_s", "rshift_s"):
         return t == "I"
-    if op == "ign_on":
+    if op in ("ign_on", "lt_k", "add_k"):
         return t in SCALAR_T
+    if op == "assert_ge_k":
+        return t in ("I", "F")
     if op == "repack":
         return t == "L"
     if op == "lazy_loop":
         return t == "B" if pos == 0 else t == "I"
+    if op in ("lazy_lt0", "lazy_eq0"):
+        return t == "B" if pos == 0 else t in SCALAR_T
     if op == "ite":
         return t == "B" if pos == 0 else t in SCALAR_T
     if op == "arr_ite":
@@ -896,7 +932,7 @@ def _arg_choices(op, types, must_use):
 FIRST = [("mkarr", 0, 1, 0), ("mkarr", 3, 0, 1), ("mkarr", 3, 1, 3), ("mkarr", 2, 0, 2), ("mkarr_k", 0, 1), ("mkarr_k", 3, 3),
          ("lt", 0, 1), ("eq", 0, 1), ("lt", 3, 0), ("le", 0, 3), ("mul", 0, 1), ("mul", 3, 0), ("mul", 2, 0), ("mul", 3, 2),
          ("add", 0, 3), ("add", 2, 2), ("sub", 0, 1), ("tobits3", 0), ("ite", 2, 0, 1), ("ite", 2, 0, 3), ("not", 2),
-         ("floordiv", 0, 1), ("neg", 3), ("mixbits", 2), ("pack_bi", 2, 0), ("lshift_s", 0, 4), ("ign_on", 0)]
+         ("floordiv", 0, 1), ("neg", 3), ("mixbits", 2), ("pack_bi", 2, 0), ("lshift_s", 0, 4), ("ign_on", 0), ("add_k", 0), ("lt_k", 3)]
 
 
 THIRD_OPS = ["get", "set", "lazy_get", "ite", "lt", "frombits", "unpack_bi", "assert_eq", "add", "mul"]
@@ -928,7 +964,7 @@ def enumerate_from(first, depth, next_ops, cross_only=True, third_ops=None):
 
 
 FIRST_OPS = ["mkarr", "mkarr_k", "lt", "eq", "mul", "add", "tobits3", "ite", "and", "not", "sub"]
-NEXT_OPS = ["lshift_s", "rshift_s", "lazy_loop", "ign_on", "get", "set", "arr_ite", "arr_scale", "arr_add", "lincomb", "scalar_mul", "ite", "lt", "eq", "mul", "add", "and", "not",
+NEXT_OPS = ["lazy_lt0", "lazy_eq0", "lt_k", "add_k", "assert_ge_k", "lshift_s", "rshift_s", "lazy_loop", "ign_on", "get", "set", "arr_ite", "arr_scale", "arr_add", "lincomb", "scalar_mul", "ite", "lt", "eq", "mul", "add", "and", "not",
             "tobits3", "frombits", "bit0", "pack_bi", "unpack_bi", "packbool", "assert_lt", "assert_eq", "arr_assert_eq", "val",
             "lazy_floordiv", "lazy_get", "lazy_mul", "lazy_lt", "lazy_bits", "guard_add", "bitlen_up", "floordiv", "mod", "abs", "neg",
             "ne", "le", "or", "xor", "arr_sub", "arr_adds", "vector_sub", "bit2", "assert_ne", "assert_le"]
@@ -942,6 +978,74 @@ def _limit_first(combos_for_op):
 
 def _init(p):
     H.bind(p)
+    _start_template()
+
+
+# ---- pristine-process executions: the same execution in a process that has never run anything must give the same result.
+# A long-lived worker resets the state it knows about between executions; a cache the library keeps anywhere else
+# (class attributes, module globals, memo tables) survives, and "first use in the process" is then seen by one execution
+# per worker only.  Each worker therefore forks, right after importing the library, a TEMPLATE process that never executes
+# library code itself; on request the template forks a child that runs ONE execution and reports.
+
+_TEMPLATE = None
+
+
+def _summary(run):
+    return (run.status, run.exc, run.regs, run.steps, bool(run.unsat), bool(run.mism), run.trace)
+
+
+def _start_template():
+    global _TEMPLATE
+    import pickle
+    if _TEMPLATE is not None:
+        return
+    req_r, req_w = os.pipe()
+    res_r, res_w = os.pipe()
+    pid = os.fork()
+    if pid == 0:
+        try:
+            os.close(req_w)
+            os.close(res_r)
+            fin, fout = os.fdopen(req_r, "rb"), os.fdopen(res_w, "wb")
+            while True:
+                try:
+                    job = pickle.load(fin)
+                except EOFError:
+                    break
+                r, w = os.pipe()
+                c = os.fork()
+                if c == 0:
+                    os.close(r)
+                    try:
+                        prog, vec, mode, p = job
+                        H.R.p = p
+                        out = _summary(execute(prog, vec, mode))
+                    except BaseException as ex:  # noqa: BLE001
+                        out = ("harness", repr(ex))
+                    try:
+                        with os.fdopen(w, "wb") as f:
+                            pickle.dump(out, f)
+                    finally:
+                        os._exit(0)
+                os.close(w)
+                with os.fdopen(r, "rb") as f:
+                    data = f.read()
+                os.waitpid(c, 0)
+                pickle.dump(data, fout)
+                fout.flush()
+        finally:
+            os._exit(0)
+    os.close(req_r)
+    os.close(res_w)
+    _TEMPLATE = (pid, os.fdopen(req_w, "wb"), os.fdopen(res_r, "rb"))
+
+
+def pristine(prog, vec, mode, p):
+    import pickle
+    _, fw, fr = _TEMPLATE
+    pickle.dump((prog, vec, mode, p), fw)
+    fw.flush()
+    return pickle.loads(pickle.load(fr))
 
 
 def _gen_task(t):
@@ -1043,6 +1147,30 @@ def analyse(prog, p, modes=MODES, domains=None):
         if set(by_mode["g0"]) != set(by_mode["g1"]):
             v("trace", "g0", list(by_mode["g0"].values())[0], "the constraint system differs between a true and a false enclosing secret guard")
     st["distinct_traces"] = sum(len(t) for t in by_mode.values())
+    # same execution, pristine process (see _start_template): first and last vector, every mode but ignore-errors
+    if _TEMPLATE is not None:
+        for vec in ([vecs[0], vecs[-1]] if len(vecs) > 1 else vecs):
+            for mode in modes:
+                if mode == "ign":
+                    continue
+                here = _summary(runs[(mode, vec)])
+                there = pristine(prog, vec, mode, p)
+                st["pristine_executions"] = st.get("pristine_executions", 0) + 1
+                if there[0] == "harness":
+                    st["pristine_harness_errors"] = st.get("pristine_harness_errors", 0) + 1
+                    continue
+                if there == here:
+                    continue
+                if there[:2] != here[:2] or not _same_regs(there[2], here[2]) or not _same_regs(there[3], here[3]):
+                    v("hist-value", mode, vec, "in a process that has not executed anything before: %s %s %s; in the long-lived worker: %s %s %s"
+                      % (there[0], there[1] or "", there[2][NIN:], here[0], here[1] or "", here[2][NIN:]))
+                elif there[4] != here[4]:
+                    v("hist-unsat", mode, vec, "recorded witness %s the constraints in a pristine process, %s in the long-lived worker"
+                      % (("violates" if there[4] else "satisfies"), ("violates" if here[4] else "satisfies")))
+                elif there[5] != here[5]:
+                    v("hist-valwire", mode, vec, "value == wire %s in a pristine process, %s in the long-lived worker" % (not there[5], not here[5]))
+                elif there[6] != here[6]:
+                    v("hist-trace", mode, vec, "the constraint system of the same execution differs between a pristine process and the long-lived worker")
     if any(s_[0] == "ign_on" for s_ in prog):
         # the program itself switches error checking off: only the invariants that hold in that mode too are kept
         viols = [x for x in viols if x["sig"]["klass"] in ("valwire", "state", "mutated")]
@@ -1053,7 +1181,7 @@ def _same_regs(a, b):
     return len(a) == len(b) and all(_same(x, y) if not (x is None or y is None) else x is y for x, y in zip(a, b))
 
 
-PROP_MODES = {"C01": ("plain", "g1", "g0", "reuse"), "C04": MODES, "C05": ("plain", "g1", "reuse"), "C06": ("plain", "g1", "g0", "ign"),
+PROP_MODES = {"C03": ("plain", "reuse"), "C01": ("plain", "g1", "g0", "reuse"), "C04": MODES, "C05": ("plain", "g1", "reuse"), "C06": ("plain", "g1", "g0", "ign"),
               "C07": ("plain", "g1", "g0"), "C08": MODES, "C09": ("plain", "g1"), "C14": ("plain", "g1", "reuse"),
               "C15": ("plain", "g1", "reuse"), "C16": ("plain", "g1", "reuse")}
 
@@ -1077,16 +1205,17 @@ def _task(t):
 
 # property -> violation classes it keeps, and a filter on the features involved
 KEEP = {
-    "C01": lambda s, feats: s["klass"] == "unsat",
-    "C04": lambda s, feats: s["klass"] in ("valwire",),
-    "C05": lambda s, feats: s["klass"] in ("value", "no-raise", "mutated", "reuse-diff") and not ({"array", "linalg"} & set(feats)) and "F" not in s.get("t", ""),
-    "C06": lambda s, feats: s["klass"] == "trace",
-    "C07": lambda s, feats: s["klass"] in ("dead-raise", "live-diff") or (s["klass"] == "unsat" and s["mode"] == "g0"),
+    "C03": lambda s, feats: (s["klass"] in ("no-raise", "reuse-diff") and s.get("op", "assert") in DECL_OPS) or (s["klass"] in ("reuse-diff", "hist-value") and bool({"assert", "const"} & set(feats))),
+    "C01": lambda s, feats: s["klass"] in ("unsat", "hist-unsat"),
+    "C04": lambda s, feats: s["klass"] in ("valwire", "hist-valwire"),
+    "C05": lambda s, feats: s["klass"] in ("value", "no-raise", "mutated", "reuse-diff", "hist-value") and not ({"array", "linalg"} & set(feats)) and "F" not in s.get("t", ""),
+    "C06": lambda s, feats: s["klass"] in ("trace", "hist-trace"),
+    "C07": lambda s, feats: s["klass"] in ("dead-raise", "live-diff") or (s["klass"].startswith("hist-") and s["mode"] in ("g0", "g1")) or (s["klass"] == "unsat" and s["mode"] == "g0"),
     "C08": lambda s, feats: s["klass"] == "state",
     "C09": lambda s, feats: s["klass"] in ("value", "no-raise") and "lazy" in feats,
-    "C14": lambda s, feats: s["klass"] in ("value", "no-raise"),
-    "C15": lambda s, feats: s["klass"] in ("value", "no-raise", "mutated", "reuse-diff") and bool({"array", "linalg"} & set(feats)),
-    "C16": lambda s, feats: s["klass"] in ("value", "no-raise", "reuse-diff") and bool({"bits", "pack", "mixbits"} & set(feats)),
+    "C14": lambda s, feats: s["klass"] in ("value", "no-raise", "hist-value"),
+    "C15": lambda s, feats: s["klass"] in ("value", "no-raise", "mutated", "reuse-diff", "hist-value") and bool({"array", "linalg"} & set(feats)),
+    "C16": lambda s, feats: s["klass"] in ("value", "no-raise", "reuse-diff", "hist-value") and bool({"bits", "pack", "mixbits"} & set(feats)),
 }
 
 _PROGRAM_CACHE = {}
@@ -1097,7 +1226,7 @@ def programs(ctx, depth=None):
         depth = 3 if ctx.thorough else 2      # thorough: a third statement from a core list (THIRD_OPS)
     key = (depth, ctx.thorough)
     if key not in _PROGRAM_CACHE:
-        nops = len(NEXT_OPS) if ctx.thorough else 35
+        nops = len(NEXT_OPS) if ctx.thorough else 40
         res = common.pool_map(_gen_task, [(f, depth, nops) for f in FIRST], init=_init, initargs=(REC.BN128,), force_fork=True)
         _PROGRAM_CACHE[key] = [p for r in res for p in r]
     return _PROGRAM_CACHE[key]
@@ -1128,6 +1257,9 @@ def sweep(ctx, pid, fields=None, f_only=None):
     ctx.add("xfeat_executions", agg.get("executions", 0))
     ctx.add("xfeat_compared_with_reference", agg.get("compared", 0))
     ctx.add("xfeat_completed", agg.get("completed", 0))
+    ctx.add("xfeat_pristine_process_executions", agg.get("pristine_executions", 0))
+    if agg.get("pristine_harness_errors"):
+        ctx.harness_errors.append("%d pristine-process executions failed inside the harness" % agg["pristine_harness_errors"])
     ctx.add("executions", agg.get("executions", 0))
     ctx.add("transitions", agg.get("transitions", 0))
     ctx.cov["xfeat_rule"] = ("cross-feature programs (pv/xfeat.py): every well-typed 2-statement composition over the combined alphabet "
@@ -1280,7 +1412,7 @@ def sound_replay(case):
 
 # ------------------------------------------------------------------------------------------------ declarations are enforced (C03 / C15 / C16)
 
-DECL_OPS = {"assert_lt": "C03", "assert_eq": "C03", "assert_ne": "C03", "assert_le": "C03", "arr_assert_eq": "C03", "tobits3": "C16",
+DECL_OPS = {"assert_ge_k": "C03", "assert_lt": "C03", "assert_eq": "C03", "assert_ne": "C03", "assert_le": "C03", "arr_assert_eq": "C03", "tobits3": "C16",
             "pack_bi": "C16", "unpack_bi": "C16", "repack": "C16", "get": "C15", "set": "C15", "lazy_get": "C15", "lazy_bits": "C16"}
 
 
